@@ -629,6 +629,31 @@ func init() {
 			return out
 		},
 
+		// ---- repo helper built on reflect: semantic stub ----
+		"lunar/engine/utils.IsInterfaceNil": func(i *interpreter, _ *frame, _ *ssa.Function, a []value) value {
+			it, ok := a[0].(iface)
+			if !ok || it.t == nil {
+				return true
+			}
+			switch v := it.v.(type) {
+			case *value:
+				return v == nil
+			case *omap:
+				return v == nil
+			case []value:
+				return v == nil
+			case *chanObj:
+				return v == nil
+			case *ssa.Function:
+				return v == nil
+			case *closure:
+				return v == nil
+			case iface:
+				return v.t == nil
+			}
+			return false
+		},
+
 		// ---- errors ----
 		"errors.Is": func(i *interpreter, _ *frame, _ *ssa.Function, a []value) value {
 			return i.errorsIs(a[0].(iface), a[1].(iface))
